@@ -398,6 +398,101 @@ func smallCacheSpace(maxLen int) *explore.Space {
 	}
 }
 
+// perNodeSpace: the pattern (and the subject) is computed from the context
+// node, and differs between the candidates of one evaluation: nothing about a
+// pattern may be remembered from one node to the next.
+func perNodeSpace(nrules int) *explore.Space {
+	subs := []string{"a", "b", "ab", ""}
+	pats := []string{"a", "^b", "b$", "a+b", "(a|b)b", "(", "x"}
+	combos := len(subs) * len(pats)
+	total := 1
+	for i := 0; i < nrules; i++ {
+		total *= combos
+	}
+	exprs := []string{"//r[matches(@s, string(@p))]", "//r[matches(@s, concat(@p, ''))]", "//r[not(matches(string(@s), string(@p)))]",
+		"//r[replace(@s, string(@p), 'z') != @s]", "//r[matches(@s, string(../r[1]/@p))]"}
+	return &explore.Space{
+		Name: fmt.Sprintf("RegexPerNode-%d", nrules), Desc: fmt.Sprintf("documents with %d <r s= p=> elements over %d subjects x %d patterns each (one invalid): predicates whose pattern is computed from the candidate", nrules, len(subs), len(pats)),
+		Size:  total,
+		Label: func(i int) string { return fmt.Sprintf("rules #%d", i) },
+		Run: func(item int, w *explore.Worker) {
+			var rules []doc.Spec
+			var ss, ps []string
+			c := item
+			for i := 0; i < nrules; i++ {
+				k := c % combos
+				c /= combos
+				sv, pv := subs[k%len(subs)], pats[k/len(subs)]
+				ss, ps = append(ss, sv), append(ps, pv)
+				rules = append(rules, doc.Spec{K: "e", N: "r", A: []doc.AttrS{{N: "s", V: sv}, {N: "p", V: pv}}})
+			}
+			t := doc.Build([]doc.Spec{{K: "e", N: "d", C: rules}})
+			// arena index of rule i: 2 + 3*i (element, then its two attributes)
+			idx := func(i int) int { return 2 + 3*i }
+			for ei, es := range exprs {
+				w.Eval()
+				// reference: per rule verdict with Go regexp; an invalid pattern that is
+				// reached makes the whole evaluation a deliberate error
+				var want []int
+				invalid := false
+				for i := 0; i < nrules && !invalid; i++ {
+					p := ps[i]
+					if ei == 4 {
+						p = ps[0]
+					}
+					re, err := regexp.Compile(p)
+					if err != nil {
+						invalid = true
+						break
+					}
+					var keep bool
+					switch ei {
+					case 0, 1, 4:
+						keep = re.MatchString(ss[i])
+					case 2:
+						keep = !re.MatchString(ss[i])
+					case 3:
+						keep = re.ReplaceAllString(ss[i], "z") != ss[i]
+					}
+					if keep {
+						want = append(want, idx(i))
+					}
+				}
+				e, err, pan := eng.Compile(es, false, nil)
+				if err != nil || pan != nil {
+					w.InternalError("per-node regex expression does not compile: " + es)
+					return
+				}
+				o := eng.Select(e, t, 0, false)
+				w.RefOutcome(ternary(invalid, "invalid-pattern", "valid"))
+				if len(want) > 0 && len(want) < nrules {
+					w.NonTrivialCase(fmt.Sprint(item, ei))
+				}
+				ok := false
+				if invalid {
+					ok = o.Kind == "panic-error"
+				} else {
+					ok = o.Kind == "nodes" && eng.EqInts(o.Nodes, append([]int{}, want...))
+				}
+				if ok {
+					w.EngOutcome("agree")
+					continue
+				}
+				w.EngOutcome("differ")
+				ec := &evalCase{Expr: es, T: t, Ctx: 0, Op: "select", Mode: "seq"}
+				exp := fmt.Sprintf("nodes:%v", append([]int{}, want...))
+				if invalid {
+					exp = "^panic-error"
+				}
+				w.Violation(ec.toCase("eval", exp, o.String(), "per-node-pattern", "C16|RegexPerNode|"+es))
+			}
+			if item == total/3 {
+				w.Sample(exprs[0] + " on " + t.String())
+			}
+		},
+	}
+}
+
 func init() {
 	report.RegisterReplayer("regex", func(c *report.Case) (string, bool, error) {
 		sub, _ := c.Extra["subject"].(string)
@@ -432,7 +527,7 @@ func init() {
 	})
 	explore.Register(&explore.Property{
 		ID: "C16", Level: "model_checking",
-		Rule: "semantics: matches()/replace() for every pattern of <= 4 (thorough: 5) regex tokens over 14 tokens (including non-compiling patterns) x 15 subjects x 12 replacement strings, pattern constant or computed, compared with Go regexp (a constant bad pattern must be a compile error, a computed one a deliberate evaluation error). cache, sequential: every get sequence of length <= 6 (thorough: 8) over 6 keys (one always failing, one failing once) on capacities 0..3 is replayed on a fresh loadingCache; after EVERY get: value exact, |entries| <= capacity, failed loads not remembered and re-loaded, hits do not call the loader (states = distinct (capacity, key set, fail-once flag), transitions = gets). cache, concurrent (explorer C): every interleaving of 2-3 goroutines x 1-2 gets over colliding keys up to a preemption bound, scheduling points at every statement of the package and every lock operation (blocking modelled), size invariant at every scheduling point, exactness at every return; plus a free-running -race pass; non-trivial = sequence with a cache hit / compiling pattern; distinct = distinct sequences / patterns",
+		Rule: "semantics: matches()/replace() for every pattern of <= 4 (thorough: 5) regex tokens over 14 tokens (including non-compiling patterns) x 15 subjects x 12 replacement strings, pattern constant or computed, compared with Go regexp (a constant bad pattern must be a compile error, a computed one a deliberate evaluation error); plus predicates whose pattern and subject are computed from each candidate node on documents with 2 (thorough: 3) rule elements over all (subject, pattern) combinations. cache, sequential: every get sequence of length <= 6 (thorough: 8) over 6 keys (one always failing, one failing once) on capacities 0..3 is replayed on a fresh loadingCache; after EVERY get: value exact, |entries| <= capacity, failed loads not remembered and re-loaded, hits do not call the loader (states = distinct (capacity, key set, fail-once flag), transitions = gets). cache, concurrent (explorer C): every interleaving of 2-3 goroutines x 1-2 gets over colliding keys up to a preemption bound, scheduling points at every statement of the package and every lock operation (blocking modelled), size invariant at every scheduling point, exactness at every return; plus a free-running -race pass; non-trivial = sequence with a cache hit / compiling pattern; distinct = distinct sequences / patterns",
 		Assumptions:    []string{"Go regexp is the specification of matches/replace", "statement-granularity interleavings under sequential consistency; plain-memory races delegated to the -race pass", "bounded sequence length, capacities 0..3, 2-3 goroutines"},
 		Budget:         budget(55*time.Second, 14*time.Minute),
 		MinRefOutcomes: 1,
@@ -443,9 +538,9 @@ func init() {
 			}
 		},
 		Spaces: func(tier string) []*explore.Space {
-			sp := []*explore.Space{matchSpace(4), replaceSpace(3), cacheSeqSpace(6), smallCacheSpace(4)}
+			sp := []*explore.Space{matchSpace(4), replaceSpace(3), perNodeSpace(2), cacheSeqSpace(6), smallCacheSpace(4)}
 			if tier == "thorough" {
-				sp = []*explore.Space{matchSpace(5), replaceSpace(4), cacheSeqSpace(8), smallCacheSpace(6)}
+				sp = []*explore.Space{matchSpace(5), replaceSpace(4), perNodeSpace(3), cacheSeqSpace(8), smallCacheSpace(6)}
 			}
 			if c16Extra != nil {
 				sp = append(sp, c16Extra(tier)...)
